@@ -248,6 +248,19 @@ impl Visitor<Diagnostic> for RuleFunctionBlockUse<'_> {
         res
     }
 
+    fn visit_configuration_declaration(
+        &mut self,
+        node: &ironplc_dsl::configuration::ConfigurationDeclaration,
+    ) -> Result<Self::Value, Diagnostic> {
+        let res = node.recurse_visit(self);
+
+        // The global variables of the configuration are not variables of a
+        // function, function block or program (those need an external
+        // variable declaration) so remove them since we have left this context
+        self.var_to_fb.clear();
+        res
+    }
+
     fn visit_var_decl(&mut self, node: &VarDecl) -> Result<Self::Value, Diagnostic> {
         if let InitialValueAssignmentKind::FunctionBlock(fbi) = &node.initializer {
             if let Some(id) = node.identifier.symbolic_id() {
